@@ -206,17 +206,9 @@ pub fn value_to_tokens(value: &ASN1Value) -> Result<String, GeneratorError> {
         }),
         ASN1Value::LinkedArrayLikeValue(seq) => seq
             .iter()
-            .try_fold(String::from("["), |mut acc, v| {
-                value_to_tokens(v).map(|v| {
-                    acc.push_str(&v);
-                    acc.push(',');
-                    acc
-                })
-            })
-            .map(|mut s| {
-                s.pop();
-                s + "]"
-            }),
+            .map(|v| value_to_tokens(v))
+            .collect::<Result<Vec<_>, _>>()
+            .map(|elements| format!("[{}]", elements.join(","))),
         ASN1Value::LinkedNestedValue {
             supertypes: _,
             value,
